@@ -1,4 +1,80 @@
 (* C01 — Order-independent agreement on blocks.
-   Theorems are added below as they are proved (see proofs/BftCore*.v). *)
+   At the reference level (spec/ElectionSpec.v) the property is proved in full for a single epoch:
+   for ALL validator sets, ALL event sets whose events are accepted by the rules and whose forkers
+   hold < 1/3 of the weight, and ALL parents-first orders:
+     - an instance that has processed a subset of another instance's events has emitted an
+       initial segment of its blocks (frame, Atropos, cheaters)          [C01_prefix_agreement]
+     - equal event sets give equal block sequences, whatever the two orders [C01_same_events]
+     - any two instances working on one DAG agree on a common prefix     [C01_comparable]
+   (the reference is a function of the event set: the table entry of an event depends only on
+   its ancestry — node_indep — and decisions are unique and monotone — BFT core).
+   For the implementation the statement is C01_full, proved from impl_refines_spec (model run =
+   reference; the L1 invariant of DESIGN 5 C10, owned by the abft model worker). *)
 From Coq Require Import NArith List.
-From LV Require Import spec.ElectionSpec.
+From LV Require Import model.VecIndex lib.WSumBft spec.ElectionSpec proofs.BftCore proofs.BftElection
+  proofs.BftMono proofs.BftGraph proofs.BftMain proofs.BftRun proofs.BftProps.
+Import ListNotations.
+Local Open Scope N_scope.
+
+Theorem C01_prefix_agreement :
+  forall vals D1 D2, all_accepted vals D1 -> all_accepted vals D2 -> incl D1 D2 ->
+    few_forkers vals (table vals D2) ->
+    prefix (snd (reference vals D1)) (snd (reference vals D2)).
+Proof. exact reference_prefix. Qed.
+
+Theorem C01_same_events :
+  forall vals D1 D2, all_accepted vals D1 -> all_accepted vals D2 -> incl D1 D2 -> incl D2 D1 ->
+    few_forkers vals (table vals D2) -> snd (reference vals D1) = snd (reference vals D2).
+Proof. exact reference_same_set. Qed.
+
+Theorem C01_comparable :
+  forall vals D1 D1' D2, all_accepted vals D1 -> all_accepted vals D1' -> all_accepted vals D2 ->
+    incl D1 D2 -> incl D1' D2 -> few_forkers vals (table vals D2) ->
+    prefix (snd (reference vals D1)) (snd (reference vals D1')) \/
+    prefix (snd (reference vals D1')) (snd (reference vals D1)).
+Proof. exact reference_comparable. Qed.
+
+(* same epoch transition: instances that have both reached the sealing frame (each on its own accepted
+   subset of the epoch's DAG, in its own order) have emitted the same blocks up to and including the
+   sealing block; the next validator set is a function of the old one (ElectionSpec.next_vals) *)
+Theorem C01_seal_agreement :
+  forall vals k D1 D1' D2, all_accepted vals D1 -> all_accepted vals D1' -> all_accepted vals D2 ->
+    incl D1 D2 -> incl D1' D2 -> few_forkers vals (table vals D2) ->
+    snd (seal_cut k (snd (reference vals D1))) = true -> snd (seal_cut k (snd (reference vals D1'))) = true ->
+    seal_cut k (snd (reference vals D1)) = seal_cut k (snd (reference vals D1')).
+Proof. exact reference_seal_agreement. Qed.
+
+(* table level: monotonicity of decisions — the blocks of a well-formed sub-table are a prefix *)
+Theorem C01_blocks_monotone :
+  forall vals T1 T2, wfT vals T1 -> wfT vals T2 -> few_forkers vals T2 -> incl T1 T2 ->
+    prefix (r_blocks vals T1) (r_blocks vals T2).
+Proof. exact ref_blocks_prefix. Qed.
+
+(* the entry of an event in the reference's table depends only on the event's ancestry *)
+Theorem C01_node_independent_of_order :
+  forall vals T1 Dr1, wfTD vals T1 Dr1 -> forall T2 Dr2, wfTD vals T2 Dr2 -> incl Dr1 Dr2 -> incl T1 T2.
+Proof. exact node_indep. Qed.
+
+(* full statement for a model of the implementation, from the refinement hypothesis *)
+Definition C01_full : impl_model -> Prop := BftProps.C01_full.
+Theorem C01_full_from_refinement : forall run, impl_refines_spec run -> C01_full run.
+Proof. exact C01_from_refinement. Qed.
+
+(* non-vacuity: the hypotheses hold for a generated DAG with a forking validator, a reordering of it
+   and an ancestor-closed subset; the subset has decided the first of the two blocks *)
+Example C01_example :
+  valid_run ex_vals ex_D /\ all_accepted ex_vals ex_D' /\ all_accepted ex_vals ex_Dsub /\
+  (incl ex_D' ex_D /\ incl ex_D ex_D') /\ incl ex_Dsub ex_D /\
+  snd (reference ex_vals ex_D) = [(1, 0, []); (2, 15, [37094])] /\
+  snd (reference ex_vals ex_Dsub) = [(1, 0, [])].
+Proof. exact (conj ex_valid (conj ex_accepted' (conj ex_accepted_sub (conj ex_incl' (conj ex_incl_sub (conj ex_blocks ex_blocks_sub)))))). Qed.
+Example C01_full_satisfiable : C01_full reference.
+Proof. exact (C01_from_refinement reference reference_refines). Qed.
+
+Print Assumptions C01_prefix_agreement.
+Print Assumptions C01_same_events.
+Print Assumptions C01_comparable.
+Print Assumptions C01_seal_agreement.
+Print Assumptions C01_blocks_monotone.
+Print Assumptions C01_node_independent_of_order.
+Print Assumptions C01_full_from_refinement.
